@@ -532,9 +532,9 @@ def stepCaller (s : State) (t : Nat) (c : Nat) (e : Ev) : Option State :=
     if s.conn ≠ none then
       some ({ s with conn := none, rxbuf := [], chan := [], eof := false, lastError := true }.setC c { k with pc := .idVisF b })
     else none
-  | .idClosing true, .rel _ => connGone s c k toIdEndFail
-  | .idClosing false, .idend _ ok =>    -- closeConnection without a connection raises (another thread has closed it)
-    if ok = false ∧ s.conn = none then some ({ s with lastError := true }.setC c (rcFail k)) else none
+  | .idClosing b, .rel _ => if b = true then connGone s c k toIdEndFail else none
+  | .idClosing b, .idend _ ok =>    -- closeConnection without a connection raises (another thread has closed it)
+    if b = false ∧ ok = false ∧ s.conn = none then some ({ s with lastError := true }.setC c (rcFail k)) else none
   | .idVisF b, .isconn _ v =>
     if v = false then some ({ s with isConn := false }.setC c { k with pc := if b then .idFail else .idEnd false }) else none
   | .idFail, .rel _ =>
